@@ -161,7 +161,7 @@ func CheckC08(c *Ctx, entry, input string) bool {
 		return false
 	}
 	if p.Err != nil {
-		c.ViolateEach("c08:rejected:"+entry+":"+errClassOf(p.Err), entry, input, fmt.Sprintf("a sentence of the documented grammar is rejected by %s: %v", entry, p.Err))
+		c.ViolateEach("c08:rejected:"+entry, entry, input, fmt.Sprintf("a sentence of the documented grammar is rejected by %s: %v", entry, p.Err))
 		return false
 	}
 	c.Count("accepted", 1)
@@ -175,7 +175,7 @@ func CheckC08(c *Ctx, entry, input string) bool {
 			return false
 		}
 		if ps.Err != nil {
-			c.ViolateEach("c08:rejected:statement:"+errClassOf(ps.Err), "statement", input, fmt.Sprintf("accepted by %s but rejected by ParseStatement: %v", entry, ps.Err))
+			c.ViolateEach("c08:rejected:statement", "statement", input, fmt.Sprintf("accepted by %s but rejected by ParseStatement: %v", entry, ps.Err))
 			return false
 		}
 		a, b := p.Root(), ps.Root()
@@ -198,7 +198,7 @@ func CheckC08(c *Ctx, entry, input string) bool {
 			p2 := Parse(spec, input)
 			if p2.Panic == nil {
 				if p2.Err != nil {
-					c.ViolateEach("c08:rejected:"+spec+":"+errClassOf(p2.Err), spec, input, fmt.Sprintf("accepted by ParseStatement but rejected by %s: %v", spec, p2.Err))
+					c.ViolateEach("c08:rejected:"+spec, spec, input, fmt.Sprintf("accepted by ParseStatement but rejected by %s: %v", spec, p2.Err))
 					return false
 				}
 				if !reflect.DeepEqual(p.Root(), p2.Root()) {
@@ -261,7 +261,7 @@ func CheckC08List(c *Ctx, listEntry string, texts []string, trailing bool) {
 		return
 	}
 	if pl.Err != nil {
-		c.Violate("c08:list-rejected:"+listEntry+":"+errClassOf(pl.Err), listEntry, joined, fmt.Sprintf("a list of %d accepted sentences is rejected: %v", len(texts), pl.Err))
+		c.Violate("c08:list-rejected:"+listEntry, listEntry, joined, fmt.Sprintf("a list of %d accepted sentences is rejected: %v", len(texts), pl.Err))
 		return
 	}
 	if len(pl.Roots) != len(texts) {
